@@ -126,7 +126,7 @@ pub struct BlockEngineT { pub inner: EngineInnerT }
 impl BlockEngineT {
 // ---- BlockEngine::enqueue: refuses after close, skips young entries, sheds on overload, else one submission with a
 // fresh sequence
-//@region foyer-storage/src/engine/block/engine.rs :: impl~^impl<K, V, P> BlockEngine<K, V, P> where/fn enqueue name=engine_enqueue start=/if !self\.inner\.active\.load\(Ordering::Relaxed\) \{/ end=/self\.inner\.flushers\[piece\.hash\(\) as usize % self\.inner\.flushers\.len\(\)\]\.submit\(Submission::CacheEntry \{/ rules=drop-tracing sub=@self\.inner\.flushers\[piece\.hash\(\) as usize % self\.inner\.flushers\.len\(\)\]\.submit\(@self.inner.flushers.submit_to(piece.hash() as usize % self.inner.flushers.len(), @
+//@region foyer-storage/src/engine/block/engine.rs :: impl~^impl<K, V, P> BlockEngine<K, V, P> where/fn enqueue name=engine_enqueue whole=1 rules=drop-tracing sub=@self\.inner\.flushers\[(.*?)\]\.submit\(@self.inner.flushers.submit_to(\1, @
 //@head
     fn engine_enqueue(&mut self, piece: PieceT, estimated_size: usize)
         requires old(self).inner.flushers.n > 0, old(self).inner.sequence.n < u64::MAX, // the 64-bit sequence counter does not wrap (assumption)
@@ -147,7 +147,7 @@ impl BlockEngineT {
 //@end
 
 // ---- BlockEngine::delete: tombstone goes into the index synchronously, before the submission
-//@region foyer-storage/src/engine/block/engine.rs :: impl~^impl<K, V, P> BlockEngine<K, V, P> where/fn delete name=engine_delete start=/if !self\.inner\.active\.load\(Ordering::Relaxed\) \{/ end=/this\.inner\.flushers\[hash as usize % this\.inner\.flushers\.len\(\)\]\.submit\(Submission::Tombstone \{/ rules=drop-tracing sub=@let this = self\.clone\(\);@let this = self;@ sub=@this\.inner\.flushers\[hash as usize % this\.inner\.flushers\.len\(\)\]\.submit\(@this.inner.flushers.submit_to(hash as usize % this.inner.flushers.len(), @ sub=@let stats = self\s*\.inner\s*\.indexer\s*\.insert_tombstone\(hash, sequence\)\s*\.map\(\|addr\| InvalidStats \{\s*block: addr\.block,\s*size: bits::align_up\(PAGE, addr\.len as usize\),\s*\}\);@let stats = verif_map_stats(self.inner.indexer.insert_tombstone(hash, sequence));@
+//@region foyer-storage/src/engine/block/engine.rs :: impl~^impl<K, V, P> BlockEngine<K, V, P> where/fn delete name=engine_delete whole=1 rules=drop-tracing sub=@let this = self\.clone\(\);@let this = self;@ sub=@this\.inner\.flushers\[(.*?)\]\.submit\(@this.inner.flushers.submit_to(\1, @ sub=@(?s)let stats = self\s*\.inner\s*\.indexer\s*\.insert_tombstone\(([^()]*)\)\s*\.map\(\|addr\| InvalidStats \{.*?\}\);@let stats = verif_map_stats(self.inner.indexer.insert_tombstone(\1));@
 //@head
     fn engine_delete(&mut self, hash: u64)
         requires old(self).inner.flushers.n > 0, old(self).inner.sequence.n < u64::MAX, // the 64-bit sequence counter does not wrap (assumption)
@@ -218,13 +218,13 @@ pub struct StoreInnerT { pub hasher: HasherT, pub keeper: KeeperT, pub engine: E
 pub struct StoreT { pub inner: StoreInnerT }
 
 impl StoreT {
-//@region foyer-storage/src/store.rs :: impl~^impl<K, V, S, P> Store<K, V, S, P> where/fn filter name=store_filter start=/self\.inner\.engine\.filter\(hash, estimated_size\)/ end=/self\.inner\.engine\.filter\(hash, estimated_size\)/
+//@region foyer-storage/src/store.rs :: impl~^impl<K, V, S, P> Store<K, V, S, P> where/fn filter name=store_filter whole=1
 //@head
     fn filter(&self, hash: u64, estimated_size: usize) -> (r: StorageFilterResult)
         ensures (r is Admit) == self.inner.engine.admit@,
 //@end
 
-//@region foyer-storage/src/store.rs :: impl~^impl<K, V, S, P> Store<K, V, S, P> where/fn delete name=store_delete start=/let hash = self\.inner\.hasher\.hash_one\(key\);/ end=/self\.inner\.engine\.delete\(hash\);/
+//@region foyer-storage/src/store.rs :: impl~^impl<K, V, S, P> Store<K, V, S, P> where/fn delete name=store_delete whole=1 rules=drop-metrics
 //@head
     fn delete<Q: Hash + Equivalent<KeyT> + ?Sized>(&mut self, key: &Q)
         ensures
@@ -235,7 +235,7 @@ impl StoreT {
 //@end
 
 // ---- Store::enqueue: admitted (or forced) pieces go to write queue + engine; a rejected update deletes the older copy
-//@region foyer-storage/src/store.rs :: impl~^impl<K, V, S, P> Store<K, V, S, P> where/fn enqueue name=store_enqueue start=/if force\s*$/ end=/self\.delete\(piece\.key\(\)\);/
+//@region foyer-storage/src/store.rs :: impl~^impl<K, V, S, P> Store<K, V, S, P> where/fn enqueue name=store_enqueue whole=1 rules=drop-tracing,drop-metrics
 //@head
     fn store_enqueue(&mut self, piece: PieceT, force: bool)
         ensures
@@ -249,7 +249,7 @@ impl StoreT {
 //@end
 
 // ---- Store::load: write queue first, then the disk index; a disk hit is accepted only for an equivalent key
-//@region foyer-storage/src/store.rs :: impl~^impl<K, V, S, P> Store<K, V, S, P> where/fn load name=store_load start=/let hash = self\.inner\.hasher\.hash_one\(key\);/ end=/match self\.inner\.engine\.load\(hash\)\.await \{/ rules=drop-tracing,de-async,drop-metrics
+//@region foyer-storage/src/store.rs :: impl~^impl<K, V, S, P> Store<K, V, S, P> where/fn load name=store_load whole=1 rules=drop-tracing,de-async,drop-metrics
 //@head
     fn store_load<Q: Hash + Equivalent<KeyT> + ?Sized>(&mut self, key: &Q) -> (r: Result<Load>)
         ensures
@@ -305,7 +305,7 @@ impl BlockT { pub fn statistics(&self) -> (r: &BlockStatsT) ensures *r == self.s
 pub open spec fn corrupt_kind_header(k: ErrorKind) -> bool { k == ErrorKind::Parse || k == ErrorKind::MagicMismatch || k == ErrorKind::ChecksumMismatch || k == ErrorKind::OutOfRange }
 pub open spec fn corrupt_kind_entry(k: ErrorKind) -> bool { k == ErrorKind::MagicMismatch || k == ErrorKind::ChecksumMismatch || k == ErrorKind::OutOfRange }
 
-//@region foyer-storage/src/engine/block/engine.rs :: impl~^impl<K, V, P> BlockEngine<K, V, P> where/fn load name=engine_load_decode start=/let header = match EntryHeader::read\(/ end=/populated: Populated \{ age \},/ rules=drop-tracing,drop-metrics sub=@&buf\[\.\.EntryHeader::serialized_len\(\)\]@verif_head(&buf, EntryHeader::serialized_len())@ sub=@&buf\[EntryHeader::serialized_len\(\)\.\.\]@verif_tail(&buf, EntryHeader::serialized_len())@ sub=@EntryDeserializer::deserialize::<K, V>\(@EntryDeserializer::deserialize(@
+//@region foyer-storage/src/engine/block/engine.rs :: impl~^impl<K, V, P> BlockEngine<K, V, P> where/fn load name=engine_load_decode start=/let header = match EntryHeader::read\(/ stmts=9 rules=drop-tracing,drop-metrics sub=@&buf\[\.\.EntryHeader::serialized_len\(\)\]@verif_head(&buf, EntryHeader::serialized_len())@ sub=@&buf\[EntryHeader::serialized_len\(\)\.\.\]@verif_tail(&buf, EntryHeader::serialized_len())@ sub=@EntryDeserializer::deserialize::<K, V>\(@EntryDeserializer::deserialize(@
 //@head
 fn engine_load_decode(buf: BufT, hash: u64, indexer: &mut IndexerT, block: &BlockT, metrics: &LoadMetricsT) -> (r: Result<Load>)
     requires buf.bytes@.len() >= 36, // the read buffer is align_up(PAGE, addr.len) >= one page
